@@ -156,6 +156,8 @@ def c09(tier, seed):
     jobs = sched_jobs(tier, seed, gen=dict(nmax=9, mc_max=3, seq_rate=0.3), selections=True, faults=True, fault_rate=0.3,
                       dfs_faults=False)
     jobs += sched_jobs(tier, seed + 11, gen=dict(nmax=5, mc_max=2, seq_rate=0.4), stress=False, dfs=True, dfs_faults=True, scale=0.2)
+    # executions started from inside node functions (also setup() inside a setup node): must terminate
+    jobs += [dict(kind="imbricated", n_cases=(60 if tier == "quick" else 600), op_watchdog_s=20, **_seeds(seed + 80, k)) for k in range(1 if tier == "quick" else 4)]
     # "never returns normally while a selected active node has not run" also for executors that are run again after a failure
     jobs += [dict(kind="hist15", pid="C09", n_histories=(40 if tier == "quick" else 400), only=["executor_rerun_used_partially_consumed_graph"],
                   **_seeds(seed + 70, k)) for k in range(2 if tier == "quick" else 8)]
